@@ -106,3 +106,42 @@ func (v *VerifC16) VerifFilePath(index uint64) string { return v.s.getFilePath(i
 func (v *VerifC16) VerifShrunk(index uint64) (bool, error) {
 	return v.s.Shrunk(pb.Snapshot{Index: index})
 }
+
+// VerifEngineOnSnapshotSaved is engine.onSnapshotSaved (engine.go) for the updates
+// of one step: for every update that carries a snapshot the engine calls
+// node.removeSnapshotFlagFile(ud.Snapshot.Index). The node is a real *node
+// holding this replica's snapshotter; nothing else of it is read on that path.
+func (v *VerifC16) VerifEngineOnSnapshotSaved(updates []pb.Update) error {
+	n := &node{shardID: v.s.shardID, replicaID: v.s.replicaID, snapshotter: v.s}
+	e := &engine{}
+	return e.onSnapshotSaved(updates, map[uint64]*node{v.s.shardID: n})
+}
+
+// VerifSaveExported is snapshotter.Save + snapshotter.Commit for an exported
+// snapshot request (rsm.SSRequest{Type: Exported, Path: path}), the way
+// node.doSave commits it; returns what doSave would.
+func (v *VerifC16) VerifSaveExported(index uint64, term uint64, payload []byte, path string) error {
+	req := rsm.SSRequest{Type: rsm.Exported, Path: path}
+	meta := rsm.SSMeta{
+		Index:   index,
+		Term:    term,
+		Type:    pb.RegularStateMachine,
+		Request: req,
+		Session: bytes.NewBuffer(rsm.GetEmptyLRUSession()),
+		Membership: pb.Membership{
+			Addresses: map[uint64]string{v.s.replicaID: "a1"},
+		},
+	}
+	ss, ssenv, err := v.s.Save(&verifC16Savable{payload: payload}, meta)
+	if err != nil {
+		return err
+	}
+	if err := v.s.Commit(ss, req); err != nil {
+		if snapshotCommitAborted(err) || saveAborted(err) {
+			ssenv.MustRemoveTempDir()
+			return nil
+		}
+		return err
+	}
+	return nil
+}
